@@ -92,7 +92,7 @@ static Verdict exec_solve(const Case &c) {
 static RegisterOp r_s0({"mzd_solve_left", "C06", 10, gen_solve, exec_solve, true});
 static RegisterOp r_s1({"mzd_pluq_solve_left", "C06", 0, nullptr, exec_solve, true});
 
-static Case gen_C06(const GenCtx &ctx) { return gen_from_ops("C06", ctx, 0); }
+static Case gen_C06(const GenCtx &ctx) { return gen_from_ops("C06", ctx, 15); }
 static RegisterProp p_C06({"C06",
                            "random: (m,n) in the three orders x rank-structured A incl. zero A x right-hand side kind (consistent by "
                            "construction B = A*X0, consistent with one flipped bit, inconsistency only in a padding row incl. the "
@@ -151,7 +151,7 @@ static Verdict exec_kernel(const Case &c) {
   return x.v;
 }
 static RegisterOp r_k0({"mzd_kernel_left_pluq", "C07", 10, gen_kernel, exec_kernel, true});
-static Case gen_C07(const GenCtx &ctx) { return gen_from_ops("C07", ctx, 0); }
+static Case gen_C07(const GenCtx &ctx) { return gen_from_ops("C07", ctx, 15); }
 static RegisterProp p_C07({"C07",
                            "random: rank-structured A (all ranks and rank profiles incl. zero matrix, full column rank, pivot gaps "
                            "across word boundaries) x shape x cutoff; oracle = model: NULL iff rank == ncols, else K is ncols x "
